@@ -382,3 +382,65 @@ B("window re-sent from setBandwith", ["C12"],
   [(PS, "        self._bandwith = bandwith\n", "        self._bandwith = bandwith\n        for _, request in self.factory.windowPublish[self.addr].items():\n            self.transport.write(bytes(request.encoded))\n")], {"C12": ["Y-WHO"]})
 N("resume loops over values()", ["C12"],
   [(PS, "        for _, reply in self.factory.windowPubRelease[self.addr].items():\n            self._retryRelease(reply, dup=True)", "        for reply in self.factory.windowPubRelease[self.addr].values():\n            self._retryRelease(reply, dup=True)")])
+
+# ---------------------------------------------------------------- C18
+B("doDisconnect without loseConnection", ["C18"], [(BASE, "        self.transport.write(request.encode())\n        self.transport.loseConnection()", "        self.transport.write(request.encode())")], {"C18": ["W3"]})
+B("a CONNACK written by the client", ["C18"],
+  [(BASE, "        self.transport.write(request.encode())\n        self.transport.loseConnection()", "        ack = CONNACK()\n        ack.session = 0\n        ack.resultCode = 0\n        self.transport.write(ack.encode())\n        self.transport.write(request.encode())\n        self.transport.loseConnection()")], {"C18": ["W1"]})
+B("doConnect reachable from ConnectedState", ["C18"],
+  [(BASE, "    def ping(self):\n        '''\n        Send a PINGREQ control packet.\n        '''\n        self.protocol.doPingRequest()", "    def connect(self, request):\n        return self.protocol.doConnect(request)\n\n    def ping(self):\n        '''\n        Send a PINGREQ control packet.\n        '''\n        self.protocol.doPingRequest()")], {"C18": ["W2"]})
+B("write of a slice", ["C18"], [(BASE, "        self.transport.write(pdu)\n        # Changes state", "        self.transport.write(pdu[:2])\n        # Changes state")], {"C18": ["W1"]})
+B("refusal branch without close (D18 re-introduced)", ["C18"],
+  [(BASE, "            # the broker closes a refused connection; do not leave it open\n            # for a second CONNECT or for timers armed while connecting\n            self.transport.abortConnection()\n", "")], {"C18": ["W5"]})
+B("DISCONNECT sent on timeout", ["C18"],
+  [(BASE, "            request.deferred = None\n            self.transport.abortConnection()            \n", "            request.deferred = None\n            self.transport.write(DISCONNECT().encode())\n            self.transport.abortConnection()            \n")], {"C18": ["W3"]})
+B("loss path writes a DISCONNECT", ["C18"], [(BASE, "        self.doConnectionLost(reason)\n        self.state = self.IDLE\n", "        self.doConnectionLost(reason)\n        self.transport.write(DISCONNECT().encode())\n        self.state = self.IDLE\n")], {"C18": ["W6", "W3"]})
+B("two packets concatenated in one write", ["C18"], [(BASE, "        self.transport.write(self._pingReq.pdu)", "        self.transport.write(self._pingReq.pdu + self._pingReq.pdu)")], {"C18": ["W1"]})
+N("write through a local alias", ["C18"], [(BASE, "        self.transport.write(request.encode())\n        self.transport.loseConnection()", "        data = request.encode()\n        self.transport.write(data)\n        self.transport.loseConnection()")])
+
+# ---------------------------------------------------------------- C16
+B("_handleSUBACK without try", ["C16"],
+  [(BASE, "        response = SUBACK()\n        try:\n            response.decode(packet)\n        except Exception as e:\n            log.debug(\"Exception {excp!r}.\", excp=e)\n            log.error(\"MQTT SUBACK PDU corrupt. Closing connection !\")\n            self.transport.abortConnection()\n        else:\n            self.state.handleSUBACK(response)",
+    "        response = SUBACK()\n        response.decode(packet)\n        self.state.handleSUBACK(response)")], {"C16": ["E1", "E3"]})
+B("except ValueError only", ["C16"],
+  [(BASE, "            response.decode(packet)\n        except Exception as e:\n            log.debug(\"Exception {excp!r}.\", excp=e)\n            log.error(\"MQTT UNSUBACK PDU corrupt. Closing connection !\")",
+    "            response.decode(packet)\n        except ValueError as e:\n            log.debug(\"Exception {excp!r}.\", excp=e)\n            log.error(\"MQTT UNSUBACK PDU corrupt. Closing connection !\")")], {"C16": ["E1", "E3"]})
+B("corrupt PUBACK handler without abort", ["C16"],
+  [(BASE, "            log.error(\"MQTT PUBACK PDU corrupt. Closing connection !\")\n            self.transport.abortConnection()\n", "            log.error(\"MQTT PUBACK PDU corrupt. Closing connection !\")\n")], {"C16": ["E1"]})
+B("packetTypes lookup unguarded", ["C16"],
+  [(BASE, "        try:\n            packet_type      = (packet[0] & 0xF0) >> 4\n            packet_flags     = (packet[0] & 0x0F)\n            packet_type_name = self.packetTypes[packet_type]\n        except KeyError as e:\n            # Invalid packet type, throw away this packet\n            log.error(\"Invalid packet type %x\" % packet_type)\n            self.transport.abortConnection()\n            return\n",
+    "        packet_type      = (packet[0] & 0xF0) >> 4\n        packet_type_name = self.packetTypes[packet_type]\n")], {"C16": ["E3", "E2"]})
+B("a _handleCONNECT method added", ["C16"],
+  [(BASE, "    def _handlePINGRESP(self, packet):", "    def _handleCONNECT(self, packet):\n        self.transport.write(packet)\n\n    def _handlePINGRESP(self, packet):")], {"C16": ["E2"]})
+B("PUBCOMP.decode assigns msgId early (tolerated sibling becomes harmful)", ["C16"],
+  [(PDU, "        packet_remaining = packet[lenLen+1:]\n        self.msgId   = decode16Int(packet_remaining)\n\n# ------------------------------------------------------------------------------\n\n__all__",
+    "        packet_remaining = packet[lenLen+1:]\n        self.msgId   = packet[1]\n        self.msgId   = decode16Int(packet_remaining)\n\n# ------------------------------------------------------------------------------\n\n__all__")], {"C16": ["E1"]})
+B("unguarded PINGRESP cancel (D2 re-introduced)", ["C16"],
+  [(BASE, "        if self._pingReq.alarm:\n            self._pingReq.alarm.cancel()\n            self._pingReq.alarm = None\n\n\n    # ---------------------------\n    # Protocol API for subclasses",
+    "        self._pingReq.alarm.cancel()\n        self._pingReq.alarm = None\n\n\n    # ---------------------------\n    # Protocol API for subclasses")], {"C16": ["E3"]})
+B("unguarded table index (D1 re-introduced)", ["C16"],
+  [(BASE, "            if response.resultCode < len(MQTT_CONNECT_CODES):\n                msg = MQTT_CONNECT_CODES[response.resultCode]\n            else:\n                msg = \"Connection Refused, reserved return code\"\n",
+    "            msg = MQTT_CONNECT_CODES[response.resultCode]\n")], {"C16": ["E3"]})
+B("ack handler without KeyError guard", ["C16"],
+  [(PS, "        try:\n            reply = self.factory.windowPubRelease[self.addr][response.msgId]\n        except KeyError as e:\n            log.debug(\"<== {packet:7} (id={response.msgId:04x}) already handled\", packet=\"PUBCOMP\", response=response)\n        else: \n",
+    "        reply = self.factory.windowPubRelease[self.addr][response.msgId]\n        if True:\n")], {"C16": ["E3"]})
+B("timer callback with an unresolved call (D4 re-introduced)", ["C16"],
+  [(PS, "        self._retryUnsubscribe(request,  dup=True)", "        self.reUnubscribe(request,  dup=True)")], {"C16": ["E3", "E4"]})
+B("delivery on a corrupt PUBLISH", ["C16"],
+  [(BASE, "            log.error(\"MQTT PUBLISH PDU corrupt. Closing connection !\")\n            self.transport.abortConnection()\n", "            log.error(\"MQTT PUBLISH PDU corrupt. Closing connection !\")\n            self.transport.abortConnection()\n            self.onPublish(None, None, 0, False, False, None)\n")], {"C16": ["E5"]})
+N("except Exception without a name", ["C16"],
+  [(BASE, "            response.decode(packet)\n        except Exception as e:\n            log.debug(\"Exception {excp!r}.\", excp=e)\n            log.error(\"MQTT SUBACK PDU corrupt. Closing connection !\")",
+    "            response.decode(packet)\n        except Exception:\n            log.error(\"MQTT SUBACK PDU corrupt. Closing connection !\")")])
+N("_handlePUBCOMP given its else:", ["C16"],
+  [(BASE, "            log.error(\"MQTT PUBCOMP PDU corrupt. Closing connection !\")\n            self.transport.abortConnection()\n        self.state.handlePUBCOMP(response)", "            log.error(\"MQTT PUBCOMP PDU corrupt. Closing connection !\")\n            self.transport.abortConnection()\n        else:\n            self.state.handlePUBCOMP(response)")])
+
+# ---------------------------------------------------------------- C17
+B("allocator modulus 65537", ["C17"], [(FAC, "            self.id = (self.id + 1) % 65536", "            self.id = (self.id + 1) % 65537")], {"C17": ["ID-RANGE"]})
+B("zero replacement removed", ["C17"], [(FAC, "            self.id = self.id or 1   # avoid id 0\n", "")], {"C17": ["ID-RANGE"]})
+B("doSubscribe with a constant identifier", ["C17"], [(PS, "            self._checkSubscribe(request)\n            request.msgId = self.factory.makeId()", "            self._checkSubscribe(request)\n            request.msgId = 1")], {"C17": ["ID-SOURCE"]})
+B("allocator ignores identifiers in use (D17 re-introduced)", ["C17"],
+  [(FAC, "            if not self._idInUse(self.id):\n                return self.id\n", "            return self.id\n")], {"C17": ["ID-INUSE"]})
+B("publish identifier from a local counter", ["C17"], [(PS, "            request.msgId    = self.factory.makeId()\n            request.deferred = defer.Deferred()", "            request.msgId    = len(self.factory.windowPublish[self.addr]) + 1\n            request.deferred = defer.Deferred()")], {"C17": ["ID-SOURCE"]})
+N("allocator modulus 65535 with +1", ["C17"], [(FAC, "            self.id = (self.id + 1) % 65536\n            self.id = self.id or 1   # avoid id 0\n", "            self.id = (self.id % 65535) + 1\n")])
+B("allocator does not look at the hold-back queue", ["C17"],
+  [(FAC, "        for queue in self.queuePublishTx.values():\n            for request in queue:\n                if request.msgId == msgId:\n                    return True\n", "")], {"C17": ["ID-INUSE"]})
